@@ -260,8 +260,32 @@ class Gen:
         return p
 
 
+SHIM = False          # set by bin/check when the driver could be built with the in-package shim
+
+
+def shim_programs(g, tier):
+    """recodings and lookup tables of the real code against spec/Recode and spec/ScalarMul (informational: drift)"""
+    rng = g.rng
+    n = 6 if tier == "quick" else 60
+    for it in range(n):
+        p = g.new("C01 shim: recodings and tables")
+        for k in range(6):
+            load_scalar(p, "s0", scalar_val(rng), rng, "canon")
+            p.op("Shim.Radix16", a=["s0"])
+            p.op("Shim.NAF", a=["s0"], n=rng.choice([5, 8]))
+        load_point(p, "p0", any_point(rng), rng)
+        p.op("Shim.ProjTable", a=["p0"])
+        for x in rng.sample(range(-8, 9), 4):
+            p.op("Shim.ProjSelect", a=["p0"], n=x % 2**64)
+        for k in range(4):
+            p.op("Shim.BaseTable", n=rng.randrange(256))
+            p.op("Shim.BaseNafTable", n=rng.randrange(64))
+
+
 def suite_C01(g, tier):
     rng = g.rng
+    if SHIM:
+        shim_programs(g, tier)
     n_single = 10 if tier == "quick" else 120
     algs = ["Point.ScalarMult", "Point.ScalarBaseMult", "Point.VarTimeDoubleScalarBaseMult"]
     for it in range(n_single):
